@@ -7,6 +7,25 @@ pub fn corr_bounds(ctx: &mut Ctx) {
     let grid = ctx.n(2000, 100_000);
     for b in bs {
         let p = SetSketchParams::new(b, 4096, 20., 65534);
+        // the documented use: a request process RELOADS the parameters of a sketch database and asks for bounds —
+        // the reloaded object must answer exactly as the one that was dumped
+        let dir = std::path::PathBuf::from(format!("{}/tmp_c07", ctx.outdir));
+        let _ = std::fs::create_dir_all(&dir);
+        let reloaded = match (catch(|| p.dump_json(&dir)), catch(|| SetSketchParams::reload_json(&dir))) { (Ok(Ok(())), Ok(Ok(q))) => Some(q), _ => None };
+        let _ = std::fs::remove_dir_all(&dir);
+        if let Some(q) = &reloaded {
+            for k in 0..=64 {
+                let jac = k as f64 / 64.0;
+                let r1 = catch(|| p.get_jaccard_bounds(jac)).map(|(x, y)| (x.to_bits(), y.to_bits()));
+                let r2 = catch(|| q.get_jaccard_bounds(jac)).map(|(x, y)| (x.to_bits(), y.to_bits()));
+                if r1.is_ok() != r2.is_ok() || (r1.is_ok() && r1 != r2) {
+                    ctx.oracle_failure(serde_json::json!({"kind":"impl_violates_property","what":"get_jaccard_bounds of reloaded parameters (dump_json -> reload_json) differs from that of the original parameters","b":b,"jac":jac,
+                        "original":format!("{:?}",r1),"reloaded":format!("{:?}",r2)}));
+                    break;
+                }
+            }
+            ctx.count("bounds through reloaded parameters");
+        }
         let mut fired = 0u64;
         let mut first_bad: Option<f64> = None;
         for i in 0..=grid {
